@@ -8,7 +8,7 @@ OBLIGATIONS = [
     Ob(name='C04.O1.rcu_barrier', harness=H, entry='h_barrier', defines=D, mode='legacy', tier='B', bound='<= 2 helper threads on the list',
        replace=('_call_rcu', 'call_rcu_completion_wait'), unwind=4, cbmc_flags=('--no-unwinding-assertions',), min_covers=3, checks=CKL, timeout=600, functions=('rcu_barrier',),
        desc='rcu_barrier: one marker (_rcu_barrier_complete, own rcu_head) per listed helper, queued under call_rcu_mutex; sleeps only after futex decrement -> barrier -> non-zero count, with the mutex released; inside a read-side critical section nothing is queued'),
-    Ob(name='C04.O3.barrier_complete', harness=H, entry='h_barrier_complete', defines=D, mode='legacy', unwind=2, min_covers=3, checks=CKL, timeout=600,
+    Ob(name='C04.O3.barrier_complete', harness=H, entry='h_barrier_complete', defines=D, mode='legacy', unwind=2, native=True, min_covers=3, checks=CKL, timeout=600,
        functions=('_rcu_barrier_complete', 'call_rcu_completion_wake_up', 'urcu_ref_put', 'free_completion'),
        desc='_rcu_barrier_complete for every count / reference state: one decrement, wake-up iff last marker and waiter asleep, work item freed once, completion freed by exactly the last put'),
 ] + [o for o in _c03.OBLIGATIONS if o.name in ('C03.O2.thread_iteration', 'C03.O4.data_free', 'C03.O1.call_rcu_enqueue')]
